@@ -66,7 +66,7 @@ func (a *IntervalAnalyzer) findLoops() {
 				lim := a.evalAt(cmp.Y, b, 0)
 				if !lim.Known {
 					// the phi itself is at least init (monotone increasing)
-					a.loops[ph] = Interval{init, math.MaxInt64, false}
+					a.loops[ph] = Interval{init, math.MaxInt64, true}
 					continue
 				}
 				switch cmp.Op {
@@ -150,6 +150,18 @@ func (a *IntervalAnalyzer) base(v ssa.Value, ctx *ssa.BasicBlock, depth int) Int
 		return tr
 	case *ssa.ChangeType:
 		return a.evalAt(x.X, ctx, depth+1)
+	case *ssa.UnOp:
+		if x.Op == token.SUB {
+			in := a.evalAt(x.X, ctx, depth+1)
+			if in.Known && in.Lo != math.MinInt64 {
+				lo, hi := -in.Hi, -in.Lo
+				if in.Hi == math.MaxInt64 {
+					lo = math.MinInt64
+				}
+				return Interval{lo, hi, true}
+			}
+		}
+		return typeRange(x.Type())
 	case *ssa.Phi:
 		if iv, ok := a.loops[x]; ok {
 			return iv
